@@ -283,6 +283,41 @@ def callable_cases(ctx, exprs):
     modgen.unload(m)
 
 
+MUST_REFUSE = [
+    # (class, body) - clear-cut instances of the designed refusals named in the property
+    ("non-boolean-Where", "e.x"), ("non-boolean-Where", "e.x + 1"), ("non-boolean-Where", "'a'"), ("non-boolean-Where", "(e.x, e.y)"),
+    ("incompatible-conditional", "1 if e.c else 'a'"), ("incompatible-conditional", "'a' if e.c else 2.5"), ("incompatible-conditional", "(e.x > 1) if e.c else 'a'"),
+    ("incompatible-conditional", "(e.x > 1) if e.c else 2"), ("incompatible-conditional", "3.5 if e.c else (e.x > 1 and e.y < 2)"), ("incompatible-conditional", "e.f(1 if e.c else 'a')"),
+    ("non-transportable-constant", "None"), ("non-transportable-constant", "e.f(None)"), ("non-transportable-constant", "..."), ("non-transportable-constant", "e.jets.Select(lambda j: (j.pt, None))"),
+    ("tuple-index", "(e.x, e.y)[2]"), ("tuple-index", "(e.x, e.y)[e.i]"), ("tuple-index", "(e.x, e.y)[-1]"), ("tuple-index", "e.f((e.x,)[1])"),
+    ("absent-dict-key", "{'a': e.x}.b"), ("absent-dict-key", "{'a': e.x}['b']"), ("absent-dict-key", "{'a': e.x, 'c': 1}.b + 1"),
+]
+
+
+def must_refuse(ctx, ds):
+    """The designed refusals are ValueErrors: clear-cut instances must be refused, by every operator and supply mode."""
+    for cls, body in MUST_REFUSE:
+        text = f"lambda e: {body}"
+        ops = ("Where",) if cls == "non-boolean-Where" else ("Select", "SelectMany", "Where")
+        for opname in ops:
+            if opname == "Where" and cls != "non-boolean-Where":
+                text_op = f"lambda e: ({body}) == 1" if cls != "incompatible-conditional" or True else text
+            else:
+                text_op = text
+            for mode in ("string", "ast"):
+                ctx.case(f"must-refuse|{opname}|{mode}|{text_op}", True)
+                ctx.count("must-refuse-cases")
+                try:
+                    s = getattr(ds, opname)(text_op if mode == "string" else astx.parse_expr(text_op))
+                except ValueError:
+                    ctx.count("must-refuse:refused")
+                    continue
+                except Exception as e:
+                    ctx.violation(f"internal-error:{type(e).__name__}@{astx.repo_frame(e, REPO)}", f"{opname}({mode}): {text_op} :: {type(e).__name__}: {str(e)[:160]}", {"op": opname, "mode": mode, "text": text_op})
+                    continue
+                ctx.violation(f"designed-refusal-missing:{cls}", f"{opname}({mode}): {text_op} must be refused with ValueError ({cls}) but was emitted as {astx.unparse(s.query_ast.args[1])[:160]}", {"op": opname, "mode": mode, "text": text_op, "must_refuse": cls})
+
+
 def shard_main(ctx):
     from func_adl import EventDataset
 
@@ -291,6 +326,8 @@ def shard_main(ctx):
             return a
 
     ds = DS()
+    if ctx.shard == 0:
+        must_refuse(ctx, ds)
     l1 = level1()
     todo = [(t, tag, 1) for t, tag in l1]
     todo += [(t, tag, 2) for t, tag in level2(l1)]
@@ -350,6 +387,9 @@ def replay(ctx, witness):
             return a
 
     ds = DS()
+    if "must_refuse" in witness:
+        must_refuse(ctx, ds)
+        return
     text, opname = witness["text"], witness["op"]
     if witness["mode"] == "callable":
         callable_cases(ctx, [(text[len("lambda e: "):], ("replay",), 2)])
